@@ -2,6 +2,7 @@
 from __future__ import annotations
 
 import re
+import warnings
 from fractions import Fraction
 
 import numpy as np
@@ -247,8 +248,74 @@ def task_inputs(arg):
     out.sample({"date": date_iso, "households": names, "inputs": cols_subset[:3]}, limit=1)
     return out.dump()
 
+def task_derived_nodes(arg):
+    """A DERIVED node (group aggregate, person-pointer aggregate - anything the policy environment does not define as a hand-written rule)
+    supplied as data in another time unit: the supplied values, converted, are what every unit variant and every consumer sees.
+    (A hand-written rule of the same base name keeps precedence over a converted data column by design - see create_time_conversion_functions.)
+    Differential oracle: data + {n_v: y} must give exactly what data + {n: converter(y)} gives; y are marker values, not the computed ones."""
+    date_iso, names, subset = arg
+    out = Partial()
+    year = int(date_iso[:4])
+    df = popgen.frame(popgen.combined(names, year))
+    _, funcs = harness.env(date_iso)
+    try:
+        nodes = sim.all_nodes(date_iso, tuple(df.columns))
+        base = sim.sim(df, date_iso, targets=nodes)
+    except Exception as e:  # noqa: BLE001
+        if sim.known_crash(date_iso, e):
+            out.count("sims_skipped_known_C08_crash")
+        else:
+            out.violation(f"simulation-raises:{type(e).__name__}", {"date": date_iso, "households": names}, repr(e)[:300])
+        return out.dump()
+    for n in subset:
+        if n not in base.columns or base[n].dtype.kind != "f":
+            continue
+        b, u, a = split(n)
+        marker = base[n].to_numpy() + 1.37
+        if a:  # a group-level column must stay constant within its group
+            pass  # the computed column is constant within the group, so is computed + 1.37
+        for v in UNITS:
+            new = f"{b}{v}{a}"
+            if v == u or new in funcs or new in df.columns:
+                continue
+            y = TC._time_conversion_functions[f"{u}_to_{v}"](marker)
+            back = TC._time_conversion_functions[f"{v}_to_{u}"](y)
+            sibs = set(variants(n).values())
+            tg = [t for t in nodes if t not in sibs]
+            case = {"date": date_iso, "households": names, "derived_node": n, "supplied_as": new}
+            out.state((date_iso[:4], tuple(names), n, v))
+            try:
+                with warnings.catch_warnings():
+                    warnings.simplefilter("ignore")
+                    da, db = df.copy(), df.copy()
+                    da[new] = y
+                    db[n] = back
+                    ga = sim.sim(da, date_iso, targets=tg + [n])
+                    gb = sim.sim(db, date_iso, targets=tg)
+            except Exception as e:  # noqa: BLE001
+                out.step()
+                out.violation(f"derived-node-in-other-unit-fails:node={n}:unit={v}", case, f"{n} supplied as {new} on {date_iso}: {e!r}"[:400])
+                continue
+            out.step(2)
+            if not sim.col_equal(ga[n].to_numpy(), back, ulps=2).all():
+                i = int(np.argmin(sim.col_equal(ga[n].to_numpy(), back, ulps=2)))
+                out.violation(f"supplied-unit-variant-ignored:node={n}", {**case, "row": i},
+                              f"{new} was supplied ({y[i]!r}); {n} is {ga[n].to_numpy()[i]!r} instead of the converted {back[i]!r} on {date_iso}")
+                continue
+            keys = list(range(len(df)))
+            for col, kind, detail in sim.compare_results(gb[tg], ga[tg], keys, keys, ulps=2, check_dtype=True)[:4]:
+                out.violation(f"derived-node-in-other-unit-changes:{col}:node={n}", {**case, "column": col},
+                              f"{col} differs ({kind}) between supplying {new} and supplying the same values as {n} on {date_iso}: {detail}")
+            out.outcome((n in funcs, v))
+    out.sample({"date": date_iso, "households": names, "derived_nodes": subset[:3]}, limit=1)
+    return out.dump()
+
 
 def replay(case):
+    if "derived_node" in case:
+        part = task_derived_nodes((case["date"], case["households"], [case["derived_node"]]))
+        v = [x for x in part["violations"] if x[1].get("supplied_as") == case["supplied_as"]]
+        return not v, "; ".join(x[2] for x in v[:2])
     if "supplied_as" in case:
         date_iso, names, c, new = case["date"], case["households"], case["input"], case["supplied_as"]
         p = task_inputs((date_iso, names, [c]))
@@ -278,7 +345,21 @@ def run(tier):
                 tasks.append((d, c, ti[k : k + 2]))
     for part in harness.pmap(task_inputs, harness.rotate(tasks)):
         rep.merge(part)
-    rep.bound = {"dates": dates, "input_dates": in_dates, "household_sets": combos}
+    dtasks = []
+    for d in (dates[::6] if thorough else dates[-1:]):
+        for c in (combos if thorough else combos[:2]):
+            df = popgen.frame(popgen.combined(c, int(d[:4])))
+            try:
+                nodes = sim.all_nodes(d, tuple(df.columns))
+            except Exception:  # noqa: BLE001
+                continue
+            _, funcs = harness.env(d)
+            derived = [n for n in nodes if split(n) and n not in funcs and n not in df.columns]
+            for k in range(0, len(derived), 2):
+                dtasks.append((d, c, derived[k : k + 2]))
+    for part in harness.pmap(task_derived_nodes, harness.rotate(dtasks)):
+        rep.merge(part)
+    rep.bound = {"dates": dates, "input_dates": in_dates, "household_sets": combos, "derived_node_tasks": len(dtasks)}
     rep.assumptions = ["factors: 12 months, 365.25/7 weeks, 365.25 days per year; ratios compared to 1e-12 relative, results with a converted input to 1e-9 relative "
                        "(integers, booleans and id partitions exactly)"]
     return rep.finish(
